@@ -208,13 +208,37 @@ theorem os_entropy_exact (n : Nat) (stream : List UInt8) (script : List Model.Os
   have := Percival.Proofs.OsEntropy.fill_ok (n + 1) n stream script { ok := false, got := [], calls := [] } h
   simpa using this
 
-/-- a failing `open`, an end-of-file or a read error makes the call fail (and then
-    `instantiate_failure` / `reseed_failure` apply) -/
+/-- a failing `open` makes the call fail; an end-of-file or a `read` error — **whatever its `errno`**
+    (`EINTR` and `EAGAIN` are not retried: the C tests `lenread == -1` only) — makes the call fail at
+    **every position**: as the first answer or after any short reads `ks` that cannot have filled the
+    buffer yet (read `i` hands over at most `ksᵢ+1` bytes, `Σ (ksᵢ+1) < n`); what the script says
+    afterwards (`as`) is irrelevant.  (Then `instantiate_failure` / `reseed_failure` apply.) -/
 theorem os_entropy_failure (n : Nat) (stream : List UInt8) (as : List Model.OsEntropy.ReadAns) :
     (Model.OsEntropy.entropyRead false n stream as).ok = false ∧
-    (Model.OsEntropy.entropyRead true (n + 1) stream (.eof :: as)).ok = false ∧
-    (Model.OsEntropy.entropyRead true (n + 1) stream (.err :: as)).ok = false := by
-  refine ⟨rfl, ?_, ?_⟩ <;> simp [Model.OsEntropy.entropyRead, Model.OsEntropy.fill]
+    ∀ (e : Model.OsEntropy.Errno) (ks : List Nat), (ks.map (· + 1)).sum < n →
+      (Model.OsEntropy.entropyRead true n stream (ks.map .chunk ++ .eof :: as)).ok = false ∧
+      (Model.OsEntropy.entropyRead true n stream (ks.map .chunk ++ .err e :: as)).ok = false := by
+  refine ⟨rfl, fun e ks hks => ⟨?_, ?_⟩⟩ <;> simp only [Model.OsEntropy.entropyRead, if_true]
+  · exact Percival.Proofs.OsEntropy.fill_fails_at ks _ (Or.inl rfl) _ _ _ _ _ (by omega) hks
+  · exact Percival.Proofs.OsEntropy.fill_fails_at ks _ (Or.inr ⟨e, rfl⟩) _ _ _ _ _ (by omega) hks
+
+/-- `EINTR` on the fourth read, after 16 + 1 + 30 of 48 bytes: the call fails -/
+example : (Model.OsEntropy.entropyRead true 48 (List.replicate 60 7) ([15, 0, 29].map .chunk ++ .err .eintr :: [.chunk 99])).ok = false :=
+  ((os_entropy_failure 48 _ _).2 .eintr [15, 0, 29] (by decide)).2
+
+/-- the same from the other side: a call that succeeds has seen only positive `read` results (no `-1`
+    of any kind, no `0`) — and, by `os_entropy_exact`, delivered exactly the OS's bytes -/
+theorem os_entropy_success_reads (n : Nat) (stream : List UInt8) (script : List Model.OsEntropy.ReadAns)
+    (h : (Model.OsEntropy.entropyRead true n stream script).ok = true) :
+    ∀ c ∈ (Model.OsEntropy.entropyRead true n stream script).calls, 0 < c.2 := by
+  unfold Model.OsEntropy.entropyRead at h ⊢
+  simp only [if_true] at h ⊢
+  intro c hc
+  rcases Percival.Proofs.OsEntropy.fill_ok_calls _ _ _ _ _ h c hc with h' | h'
+  · simp at h'
+  · exact h'
+
+example : (Model.OsEntropy.entropyRead true 5 [1, 2, 3, 4, 5, 6, 7] [.chunk 1, .chunk 0, .chunk 9]).ok = true := by decide
 
 example : (Model.OsEntropy.entropyRead true 5 [1, 2, 3, 4, 5, 6, 7] [.chunk 1, .chunk 0, .chunk 9]).got = [1, 2, 3, 4, 5] := by decide
 
